@@ -210,6 +210,35 @@ def rule_order(ctx):
                    why or f'{norm(it)} is a set of unit generators (hashed by id): using its iteration order makes the emitted bytes depend on memory '
                           f'addresses / hash seed', node, m)
     ctx.require(n >= 1, 'C20.order', 'no ordered use of graph sets found (anchor vanished)')
+    # the same for sets made on the spot (set(...), {...}, a local bound to one) inside the graph-building code: units hash by id
+    DELIVERY = {'add', 'send', 'load', 'store', '_do_send', '_write_def_file'}     # after the bytes exist: order of servers, not of units
+
+    def is_set_expr(e, local_sets):
+        return isinstance(e, (ast.Set, ast.SetComp)) or (isinstance(e, ast.Call) and isinstance(e.func, ast.Name) and e.func.id in ('set', 'frozenset')) \
+            or (isinstance(e, ast.Name) and e.id in local_sets)
+    k = 0
+    for fi in ctx.repo.functions.values():
+        if not fi.module.name.startswith('sc3.synth') or fi.name in DELIVERY:
+            continue
+        k += 1
+        local_sets = {a.targets[0].id for a in walk_local(fi.node) if isinstance(a, ast.Assign) and isinstance(a.targets[0], ast.Name)
+                      and is_set_expr(a.value, set())}
+        for node in walk_local(fi.node):
+            its = []
+            if isinstance(node, ast.For):
+                its = [node.iter]
+            elif isinstance(node, (ast.ListComp, ast.GeneratorExp, ast.DictComp)):
+                its = [g.iter for g in node.generators]
+            elif isinstance(node, ast.Call) and isinstance(node.func, ast.Name) and node.func.id in ('list', 'tuple', 'iter', 'next') and node.args:
+                its = [node.args[0]]
+            elif isinstance(node, ast.Starred):
+                its = [node.value]
+            for it in its:
+                if is_set_expr(it, local_sets):
+                    ctx.ob('C20.order', f'{fi.fq}:{norm(it)[:60]}:{type(node).__name__}:inline-set', False,
+                           f'{norm(it)[:80]} is iterated in hash order inside the graph-building code: for unit generators (hashed by id) the '
+                           f'order of the visits, and with it the emitted definition, depends on memory addresses', node, fi.module)
+    ctx.require(k >= 300, 'C20.order', f'only {k} functions of the synthesis modules analysed')
     for m in ctx.repo.modules.values():
         if not m.name.startswith('sc3.synth'):
             continue
@@ -309,8 +338,27 @@ def rule_args(ctx):
     ctx.require(n >= 100, 'C20.own', f'only {n} functions with parameters analysed')
 
 
+def rule_file(ctx):
+    ctx.rule('C20.ctx', 'a definition is serialized before a file is opened for it: inside `with open(..., "wb"/"xb")` nothing that can fail '
+                        'for a bad definition runs (the serializer raising would leave a truncated file behind)')
+    f = ctx.repo.func('sc3.synth.synthdef:SynthDef._write_def_file')
+    withs = [w for w in walk_local(f.node) if isinstance(w, ast.With) and any(
+        isinstance(i.context_expr, ast.Call) and norm(i.context_expr.func) == 'open' for i in w.items)]
+    ctx.require(len(withs) >= 1, 'C20.ctx', '_write_def_file: no file is opened (anchor vanished)')
+    bad = []
+    for w in withs:
+        for c in U.calls(ast.Module(body=w.body, type_ignores=[])):
+            mn = U.method_name(c) or U.call_name(c) or ''
+            if mn.startswith('_write_def') or mn in ('as_bytes',):
+                bad.append(norm(c)[:60])
+    ctx.ob('C20.ctx', f'{f.fq}:serialize-before-open', not bad,
+           f'{bad} runs while the target file is already open for writing: a definition that cannot be written (duplicated control name, '
+           f'too many controls) truncates an existing file', f.node, f.module)
+
+
 def run(ctx):
     rule_args(ctx)
+    rule_file(ctx)
     from . import c03
     ctx.rule('C20.own', 'helpers that run during a build do not write into containers handed in by the caller (a unit of one build would outlive it)')
     c03.argument_untouched(ctx, 'C20.own')
@@ -322,6 +370,12 @@ def run(ctx):
 
 
 MUTANTS = [
+    dict(rule='C20.ctx', name='definition serialized into the open file (fix reverted)', file='sc3/synth/synthdef.py',
+         old="        data = self.as_bytes()\n        try:\n            # Should write if file doesn't exists or overwrite is True.\n            with open(path, mode) as file:\n                file.write(data)\n",
+         new="        try:\n            # Should write if file doesn't exists or overwrite is True.\n            with open(path, mode) as file:\n                self._write_def_list([self], file)\n"),
+    dict(rule='C20.order', name='dead-code pass dedupes its inputs with a set (seed C20-f)', file='sc3/synth/ugen.py',
+         old="            for input in self.inputs:\n                if isinstance(input, UGen) and input._descendants\\\n                and not any(input is i for i in done):\n                    done.append(input)\n",
+         new="            for input in set(i for i in self.inputs if isinstance(i, UGen)):\n                if input._descendants:\n"),
     dict(rule='C20.own', name='rates list of the caller padded in place (fix reverted)', file='sc3/synth/synthdef.py',
          old="        rates = list(rates) + [0] * (len(names) - len(rates))", new="        rates += [0] * (len(names) - len(rates))"),
     dict(rule='C20.own', name='zero replacement writes into the given list (fix reverted)', file='sc3/synth/ugen.py',
